@@ -1,5 +1,5 @@
 (* Properties_C17.v — C17: a truncated file never yields wrong data. *)
-From ElfioV Require Import Bytes Mem Stream SectionData Strings Elfio Table Loader Load_proofs Data_proofs Reader_proofs Prefix_proofs.
+From ElfioV Require Import Bytes Mem Stream SectionData Strings Elfio Table Loader Load_proofs Data_proofs Codec_proofs Reader_proofs Prefix_proofs.
 Local Open Scope N_scope.
 
 (* loading any prefix (any bytes at all) returns without a fault *)
@@ -69,6 +69,21 @@ Theorem C17_prefix_header_absent_or_identical :
     (exists el' ok al, load junk el k (firstnN f n) lazy = Ok (el', ok, al) /\ el_hdr el' = Some h).
 Proof. exact prefix_header_absent_or_identical. Qed.
 Print Assumptions C17_prefix_header_absent_or_identical.
+
+(* the section header table: an entry read from any prefix of a file is reported either with exactly the fields the
+   complete file yields (the entry lies inside the prefix) or as an empty section - every field zero, no data (the
+   cut falls before its end; after the repair of the defect this check found: partly read fields used to be reported) *)
+Theorem C17_prefix_section_header_absent_or_identical :
+  forall junk k (f : bytes) n enc c idx (pos : N) lazy s',
+    pos < 2 ^ 63 -> pos + shdr_size c <= lenN f -> s_cls s' = c -> shdr_wf s' ->
+    sliceN f pos (shdr_size c) = shdr_bytes enc s' ->
+    exists st' r al,
+      section_load junk (open_istream k (firstnN f n)) [] enc (with_index (new_section c) idx) (Z.of_N pos) lazy = Ok (st', r, al) /\
+      ((sh_name r = sh_name s' /\ sh_type r = sh_type s' /\ sh_flags r = sh_flags s' /\ sh_addr r = sh_addr s' /\
+        sh_offset r = sh_offset s' /\ sh_size r = sh_size s' /\ sh_link r = sh_link s' /\ sh_info r = sh_info s' /\
+        sh_addralign r = sh_addralign s' /\ sh_entsize r = sh_entsize s') \/ hdr_all_zero r).
+Proof. exact prefix_section_header_absent_or_identical. Qed.
+Print Assumptions C17_prefix_section_header_absent_or_identical.
 
 (* ... and an input without a decodable header is refused, whatever else it holds *)
 Theorem C17_no_header_no_load :
